@@ -25,6 +25,8 @@ def gen_config(rnd, S, opts=None):
                "dividend_reinvestment": rnd.random() < opts.get("p_reinvest", 0.25),
                "cash_return_by_stock_delisted": rnd.random() < 0.85,
                "futures_settlement_price_type": rnd.choice(["close", "settlement"])}
+    if opts.get("c06_plans"):
+        S["_c06_plans"] = True           # follow-up orders sent from a TRADE handler; a resting auction order plus bar orders on one instrument
     if opts.get("otp"):
         S["_otp"] = True                 # order_target_portfolio calls with per-instrument limit prices
     if opts.get("frac_fut"):
@@ -155,7 +157,51 @@ def run_trading(rnd, S, cfgk, intensity=1.0, script=None, analyser=False, ids=No
                                                   "frozen_price": float(t.frozen_price) if t.frozen_price is not None else None},
                                         "order": order_snap(o) if o is not None else None, "accounts": accounts_snap(context),
                                         "open": [x.order_id for x in env.broker.get_open_orders()]}))
+            if S.get("_c06_plans") and o is not None and reseed_key is None and not follow["busy"] and t.order_book_id in stocks \
+                    and tr.stats.get("_phase") == "BAR" and env.calendar_dt.hour != 0 and follow["rnd"].random() < 0.35:
+                # (subscribed handlers run in the GLOBAL phase, where the order APIs are allowed; only while the day bar is being
+                # handled: an order sent from a handler during the auction lands in the regular book — the mechanism of finding F18)
+                # a strategy that reacts to its own fill: one more order on the same instrument, sent from inside the TRADE handler
+                follow["busy"] = True
+                try:
+                    trade_followup(context, t.order_book_id)
+                finally:
+                    follow["busy"] = False
         subscribe_event(EVENT.TRADE, on_trade)
+
+    follow = {"busy": False, "rnd": random.Random(rnd.random()) if S.get("_c06_plans") else None}
+
+    def trade_followup(context, oid):
+        import rqalpha.api as api
+        env = Environment.get_instance()
+        srec = next(x for x in S["stocks"] if x["id"] == oid)
+        try:
+            bar = srec["bars"].get(S["cal"].index(env.trading_dt.date()))
+        except ValueError:
+            bar = None
+        if bar is None:
+            return
+        cap = int(round(bar[5] * cfgk["sim"].get("volume_percent", 0.25)))
+        q = max(100, min(cap // 100 * 100, 20000))
+        call = {"phase": tr.stats.get("_phase"), "when": env.calendar_dt, "api": "order_shares", "args": (oid, q, None), "orders": [], "exc": None, "from_trade_handler": True}
+        before, pf_before = accounts_snap(context), pf_snap(context)
+        n_val0 = len(tr.rec.validations)
+        open_before = [x.order_id for x in env.broker.get_open_orders()]
+        res = None
+        try:
+            res = api.order_shares(oid, q)
+        except Exception as ex:
+            call["exc"] = (type(ex).__name__, str(ex)[:200])
+        olist = [x for x in (res if isinstance(res, (list, tuple)) else [res]) if x is not None]
+        for x in olist:
+            tr.orders[x.order_id] = x
+        call.update(val_range=(n_val0, len(tr.rec.validations)), pos_before={}, orders=[order_snap(x) for x in olist],
+                    open_after=[x.order_id for x in env.broker.get_open_orders()], open_before=open_before, before=before, after=accounts_snap(context),
+                    pf_after=pf_snap(context), pf_before=pf_before)
+        tr.calls.append(call)
+        tr.events.append(("CALL", call))
+        tr.stats["calls"] += 1
+        tr.stats["followups_from_trade_handler"] += 1
 
     def near_limit_today(env):
         out = []
@@ -200,6 +246,36 @@ def run_trading(rnd, S, cfgk, intensity=1.0, script=None, analyser=False, ids=No
                     return [r0, r1, r2]
                 out.append(fg)
             return out
+        # an auction limit order that rests through the auction and fills on the day bar, then a bar order on the same instrument
+        if S.get("_c06_plans") and stocks and "STOCK" in context.portfolio.accounts and reseed_key is None:
+            try:
+                di = S["cal"].index(env.trading_dt.date())
+            except ValueError:
+                di = None
+            pct = cfgk["sim"].get("volume_percent", 0.25)
+            if phase == "AUC" and di is not None:
+                plan["rest"] = None
+                for srec in S["stocks"]:
+                    bar = srec["bars"].get(di)
+                    if srec["id"] in stocks and bar is not None and bar[2] <= bar[1] - 0.04 and 300 <= round(bar[5] * pct) <= 20000 and srnd.random() < 0.6:
+                        cap = int(round(bar[5] * pct))
+                        q = max(100, int(cap * 0.7) // 100 * 100)
+                        lim = round((bar[1] + bar[2]) / 2, 2)
+                        if context.portfolio.accounts["STOCK"].cash > 2.5 * cap * bar[1]:
+                            def f8(call, before, oid=srec["id"], q=q, lim=lim):
+                                call.update(api="order_shares", args=(oid, q, lim))
+                                return api.order_shares(oid, q, price_or_style=LimitOrder(lim))
+                            out.append(f8)
+                            plan["rest"] = (srec["id"], di, cap)
+                            break
+            elif phase == "BAR" and plan.get("rest") and plan["rest"][1] == di:
+                oid, _, cap = plan["rest"]
+                plan["rest"] = None
+
+                def f9(call, before, oid=oid, q=max(100, cap // 100 * 100)):
+                    call.update(api="order_shares", args=(oid, q, None))
+                    return api.order_shares(oid, q)
+                out.append(f9)
         if phase != "BAR":
             return out
         plan["bars"] += 1
